@@ -18,7 +18,8 @@ def run(chk):
                 'a scheduling point); all schedules with <= 2 pre-emptions (quick: a bounded sample of the 2-pre-emption '
                 'ones; thorough: all, plus 3 pre-emptions sampled) over scenarios: creation race, existing directory, '
                 'collisions with orphans (file, directory, empty directory, dangling link) and strays, mixed kinds, '
-                'volume trash directory; the projected state after EVERY operation is judged by TLC (FsTrace) with the '
+                'volume trash directory, names too long for their .trashinfo (shortened names colliding with an orphan and '
+                'a stray); the projected state after EVERY operation is judged by TLC (FsTrace) with the '
                 'invariants of PutOps; the final state must be N complete pairs. (3) 130 same-named puts in a row '
                 '(past the _99 -> random suffix boundary), mixed kinds. distinct = distinct observed states')
     chk.assumptions += opcommon.ASSUME
@@ -27,6 +28,7 @@ def run(chk):
         ('two_pre', dict(procs=('p1', 'p2'), preinfo=[('t', 'n')], prepay=[('t', 'n1')], dirs_exist=('t',))),
         ('two_rand', dict(procs=('p1', 'p2'), slots=('n',), rand=('r1', 'r2'), prepay=[('t', 'r1')])),
         ('three', dict(procs=('p1', 'p2', 'p3'), slots=('n', 'n1'), preinfo=[('t', 'n')])),
+        ('two_long', dict(procs=('p1', 'p2'), slots=('n', 'n1', 'n2', 'n3'), toolong=('n',), prepay=[('t', 'n1')], preinfo=[('t', 'n2')])),
     ])
     rnd = random.Random('c04|%s' % chk.seed)
     items = []
@@ -60,11 +62,12 @@ def run(chk):
         for o in out:
             uniq.setdefault(json.dumps(o['events']), o)
         tr = [json.loads(k) for k in uniq]
-        ab = lambda s_: 'n' if s_ == b'n' else 'n' + s_.decode()[2:]
+        ab = lambda s_: s_ if isinstance(s_, str) else 'n' if s_ == b'n' else 'n' + s_.decode()[2:]
         vr, acc = opspec.validate_put_traces(
             tr, ['p%d' % (i + 1) for i in range(len(kinds))],
             [('t1', ab(s_)) for t_, s_ in kw.get('pre_info', [])], [('t1', ab(s_)) for t_, s_, k_ in kw.get('pre_pay', [])],
-            bool(kw.get('tdir_exists') or kw.get('pre_info') or kw.get('pre_pay')))   # pre-existing entries imply the directories
+            bool(kw.get('tdir_exists') or kw.get('pre_info') or kw.get('pre_pay')),   # pre-existing entries imply the directories
+            toolong=('n',) if len(kw.get('base', b'n')) > 245 else ())
         chk.add_tlc('PutOpsTrace:' + scen, vr, constants='traces=%d' % len(tr))
         if vr.ok:
             rej = [list(uniq.values())[i] for i in range(len(tr)) if (i + 1) not in acc]
